@@ -10,6 +10,8 @@ Legs
                layer that share a neuron group (Biclique fan-in), a connection (fan-out) or are the
                same Serial cell under two names, each registered with different per-cell overrides;
                every connection is compared with the sum of its cells' own pair sums.
+  (pairs and multi also split 1 history in 4 into episodes: trainer.clear(keepshape=True) / clear()
+   plus layer.clear() before a generated step; the oracle pairs only spikes of the current episode.)
   (pairs also constructs the trainer with other values -- often another sign mode -- and lets the
    cell override them at register_cell in 2 of 5 cases; the oracle always uses the cell's values.)
   exhaustive : 1x1 dense cell, every pre/post history of length T (4^T) x trace modes x
@@ -266,6 +268,36 @@ def call_trainer(case, trainer, t, fdt):
         trainer()
 
 
+def clear_kind(case, t):
+    """None, 'keep' (trainer.clear(keepshape=True)) or 'drop' (trainer.clear()) before step t."""
+    c = case.get("clear")
+    return c[t] if c else None
+
+
+def do_clear(case, t, trainer, layer):
+    """A new episode starts before step ``t``: the trainer's monitors are cleared
+    (CellTrainer.clear forwards its keyword arguments to every monitor / reducer) and the
+    layer's connections (synapse history, pending updater parts) and neurons are cleared."""
+    with impl(f"clear before step {t}"):
+        if clear_kind(case, t) == "keep":
+            trainer.clear(keepshape=True)
+        else:
+            trainer.clear()
+        layer.clear()
+
+
+def episodes(case):
+    """[start, end) step ranges separated by the clears."""
+    T = case["T"]
+    starts = [0] + [t for t in range(1, T) if clear_kind(case, t)]
+    return list(zip(starts, starts[1:] + [T]))
+
+
+def _slice_elements(elements, s, e):
+    return [[(i, o, d[s:e] if isinstance(d, (list, tuple)) else d) for (i, o, d) in syns]
+            for syns in elements]
+
+
 def drive(case, layer, trainer, param="weight", call=call_trainer, before_update=None,
           after_update=None):
     """Runs the history; returns (post history actually produced, observations).
@@ -282,6 +314,9 @@ def drive(case, layer, trainer, param="weight", call=call_trainer, before_update
     fdt = conn.weight.dtype
     chg = change_step(case)
     for t in range(T):
+        if clear_kind(case, t):
+            do_clear(case, t, trainer, layer)
+            obs.append(("clear", t))
         if chg is not None and t == chg:
             with impl(f"set delay before step {t}"):
                 conn.delay = torch.tensor(delay_steps(case)[t].astype(np.float64) * case["dt"], dtype=fdt)
@@ -315,14 +350,34 @@ def drive(case, layer, trainer, param="weight", call=call_trainer, before_update
 
 
 def reference(case, posts):
-    mod = None
-    if case["trainer"] in MODULATED:
-        mod = case["signal"]
-    return M.reference_run(
-        rule_of(case), case["pre"], posts,
-        elements_of(case), reduction=case["reduction"], modulation=mod,
-        eligibility_tc=case["hp"]["tc_elig"] if case["trainer"] == "MSTDPET" else None,
-        scale=case.get("scale", 1.0))
+    """Per-step (ltp, ltd) of the case; every episode (history between two clears) is
+    evaluated on its own: for the oracle nothing exists before the episode's first step."""
+    mod = case["signal"] if case["trainer"] in MODULATED else None
+    elements = elements_of(case)
+    outs = []
+    for (s, e) in episodes(case):
+        outs.append(M.reference_run(
+            rule_of(case), case["pre"][s:e], posts[s:e], _slice_elements(elements, s, e),
+            reduction=case["reduction"], modulation=None if mod is None else mod[s:e],
+            eligibility_tc=case["hp"]["tc_elig"] if case["trainer"] == "MSTDPET" else None,
+            scale=case.get("scale", 1.0)))
+    return np.concatenate([o[0] for o in outs], axis=0), np.concatenate([o[1] for o in outs], axis=0)
+
+
+def pair_statistics(case, posts):
+    """models.stdp.pair_stats summed over the episodes."""
+    elements = elements_of(case)
+    tot = None
+    for (s, e) in episodes(case):
+        st_ = M.pair_stats(case["pre"][s:e], posts[s:e], _slice_elements(elements, s, e), case["called"][s:e])
+        if tot is None:
+            tot = st_
+        else:
+            for k in ("causal", "anti", "simul"):
+                tot[k] += st_[k]
+            tot["max_pre_before_post"] = max(tot["max_pre_before_post"], st_["max_pre_before_post"])
+            tot["delays"] = max(tot["delays"], st_["delays"])
+    return tot
 
 
 def close(got, want):
@@ -355,6 +410,9 @@ def compare_obs(tag, obs, net, keep, w0, info):
     pending = np.zeros(n)
     applied = np.zeros(n)
     for ob in obs:
+        if ob[0] == "clear":
+            pending = np.zeros(n)  # documented: Connection.clear also clears the updater
+            continue
         if ob[0] == "call":
             _, t, pos, neg = ob
             pending = pending + net[t]
@@ -414,7 +472,7 @@ def _run_pairs(case):
     keep = lateral_keep(case, n)
     compare_obs(case["trainer"], obs, net, keep, w0,
                 {"trainer": case["trainer"], "conn": case["conn"], "override": bool(case.get("ctor"))})
-    stats = M.pair_stats(case["pre"], posts, elements_of(case), case["called"])
+    stats = pair_statistics(case, posts)
     d = case.get("delay")
     hetero = d is not None and stats["delays"] >= 2
     nt = (stats["causal"] >= 1 and stats["anti"] >= 1 and stats["simul"] >= 1
@@ -441,6 +499,15 @@ def _run_pairs(case):
         cls.append("f64")
     if not all(case["called"]):
         cls.append("skipped_calls")
+    if case.get("clear"):
+        cls.append("episodes")
+        for kind in sorted(set(k for k in case["clear"] if k)):
+            cls.append("clear=" + kind)
+        multislot = (case["trainer"] in TRIPLET_TRAINERS
+                     or (d is not None and d.get("delayed") and d["max"] > 0 and case["trainer"] != "MSTDPET"))
+        cls.append("episodes_multislot" if multislot else "episodes_singleslot")
+        if d is not None and d.get("delayed") and hetero:
+            cls.append("episodes_delayed_hetero")
     cls += override_classes(case)
     return {"nt": bool(nt), "cls": cls}
 
@@ -454,7 +521,7 @@ def expand_cells(case):
     case (own connection geometry, delays, effective hyper-parameters, override list)
     sharing trainer, constructor values, batch, step time, length, calls and reward."""
     shared = {k: case[k] for k in ("trainer", "B", "dt", "T", "called", "update", "ctor", "signal",
-                                   "scale", "tolerance") if k in case}
+                                   "scale", "tolerance", "clear") if k in case}
     subs = []
     for k, c in enumerate(case["cells"]):
         sub = dict(shared)
@@ -544,6 +611,10 @@ def drive_multi(case, scene, trainer, params=None, call=call_trainer, before_upd
     obs = [[] for _ in range(nconn)]
     fdt = scene.conns[0].weight.dtype
     for t in range(T):
+        if clear_kind(case, t):
+            do_clear(case, t, trainer, scene.layer)
+            for j in range(nconn):
+                obs[j].append(("clear", t))
         with impl(f"layer step {t}"):
             outs = scene.step(t)
         for k, o in enumerate(outs):
@@ -613,7 +684,7 @@ def _run_multi(case):
                     {"trainer": case["trainer"], "layout": case["layout"], "differ": diff})
     called = np.array(case["called"], dtype=bool)
     live = [bool(np.any(np.abs(nk[called]) > 0)) for nk in nets]
-    stats = [M.pair_stats(sub["pre"], ps, elements_of(sub), case["called"]) for sub, ps in zip(subs, posts)]
+    stats = [pair_statistics(sub, ps) for sub, ps in zip(subs, posts)]
     nt = all(live) and bool(diff) and all(st_["causal"] + st_["simul"] >= 1 and st_["anti"] + st_["simul"] >= 1
                                          for st_ in stats)
     cls = [f"trainer={case['trainer']}", f"layout={case['layout']}",
@@ -627,6 +698,8 @@ def _run_multi(case):
         cls.append("delay=" + ("none" if d is None else ("delayed" if d.get("delayed") else "frozen")))
     if case["trainer"] in MODULATED:
         cls.append("signal=" + ("persample" if any(isinstance(s_, list) for s_ in case["signal"]) else "scalar"))
+    if case.get("clear"):
+        cls.append("episodes")
     return {"nt": bool(nt), "cls": cls}
 
 
@@ -821,16 +894,26 @@ def cell_geometry(draw, tier, allow_conv=True):
 
 @st.composite
 def pairs_case(draw, tier="quick", trainers=TRAINERS):
-    trainer = draw(st.sampled_from(trainers))
+    # 1 case in 4 consists of several episodes separated by clear(); those cases lean towards the
+    # configurations whose reducers keep more than one time slot (triplet slow traces, 'delayed'
+    # mode with non-zero delays), where stale pre-clear history could leak into the next episode
+    episodic = draw(st.integers(0, 3)) == 3
+    if episodic:
+        trainer = draw(st.sampled_from(tuple(trainers) + TRIPLET_TRAINERS + ("STDP", "MSTDP")))
+    else:
+        trainer = draw(st.sampled_from(trainers))
     case = {"trainer": trainer}
     case.update(draw(cell_geometry(tier)))
     case["B"] = draw(st.sampled_from([1, 2, 2, 3]))
-    dkind = draw(st.sampled_from(["none", "none", "frozen", "delayed", "delayed", "flag_only"]))
+    if episodic:
+        dkind = draw(st.sampled_from(["delayed", "delayed", "delayed", "frozen", "none"]))
+    else:
+        dkind = draw(st.sampled_from(["none", "none", "frozen", "delayed", "delayed", "flag_only"]))
     if trainer == "MSTDPET" and dkind == "delayed":
         dkind = "frozen"  # MSTDPET has no 'delayed' mode
     if dkind in ("frozen", "delayed"):
         case["dt"] = draw(st.sampled_from([1.0, 0.5, 2.0, 0.25]))
-        case["delay"] = {"max": draw(st.sampled_from([2, 1, 3, 2, 0])),
+        case["delay"] = {"max": draw(st.sampled_from([2, 3, 1] if episodic else [2, 1, 3, 2, 0])),
                          "steps": draw(st.lists(st.integers(0, 3), min_size=1, max_size=6)),
                          "delayed": dkind == "delayed"}
         if dkind == "delayed" and draw(st.integers(0, 2)) == 2:
@@ -846,7 +929,7 @@ def pairs_case(draw, tier="quick", trainers=TRAINERS):
     case["reduction"] = draw(st.sampled_from(["sum", "mean", "amax", "sum"]))
     case["w0"] = draw(st.sampled_from([[0.5], [0.0], [0.25, 1.0, -0.5]]))
     tmax = 10 if tier == "quick" else 16
-    T = draw(st.integers(2, tmax))
+    T = draw(st.integers(4 if episodic else 2, tmax))
     case["T"] = T
     ishape, oshape, ni, no = shapes_of(case)
     B = case["B"]
@@ -877,10 +960,27 @@ def pairs_case(draw, tier="quick", trainers=TRAINERS):
     case["f64"] = draw(st.integers(0, 7)) == 7
     if trainer in TRIPLET_TRAINERS:
         case["inplace"] = draw(st.booleans())
+    if episodic:
+        draw_clears(draw, case)
     if draw(st.integers(0, 4)) >= 3:
         # the trainer is constructed with other values, the cell overrides them at registration
         apply_overrides(draw, case, override_groups(trainer), draw(ctor_values(trainer, hyper(trainer))))
     return case
+
+
+def draw_clears(draw, case):
+    """One or two clears (never before step 1, never two in a row); the trainer is called on the
+    step that follows a clear, so every episode contributes."""
+    T = case["T"]
+    clear = [None] * T
+    n = draw(st.sampled_from([1, 1, 2]))
+    for _ in range(n):
+        t = 1 + draw(st.integers(0, T - 2))
+        if clear[t] is None and clear[t - 1] is None and (t + 1 >= T or clear[t + 1] is None):
+            clear[t] = draw(st.sampled_from(["keep", "drop", "keep"]))
+            case["called"][t] = True
+    if any(clear):
+        case["clear"] = clear
 
 
 @st.composite
@@ -978,6 +1078,8 @@ def multi_case(draw, tier="quick", trainers=TRAINERS):
     case["update"] = ([True] * T if ukind == "every" else [False] * T if ukind == "end"
                       else [draw(st.booleans()) for _ in range(T)])
     case["f64"] = draw(st.integers(0, 9)) == 9
+    if T >= 4 and draw(st.integers(0, 3)) == 3:
+        draw_clears(draw, case)
     return case
 
 
